@@ -112,6 +112,20 @@ def check(prog, run):
         else:
             run.violation("reverse-lookup-first-match", c, "returns %r, expected %r" % (p.value if p.returned else p.raised.describe(), want),
                           file, ecls.lookup("__getitem__")[0].node.lineno, "pyscsi.utils.enum:Enum.__getitem__")
+    # a value is found by equality, not by being the very same object (small ints and literals are shared objects in
+    # CPython, which hides an identity comparison): equal values built separately
+    for label, stored, probe in (("70000", lambda: int("70000"), lambda: int("7") * 10000), ("'abcd'", lambda: "".join(["ab", "cd"]), lambda: "".join(["a", "bcd"])),
+                                 ("(1, 2)", lambda: tuple([1, 2]), lambda: tuple([1, 2])), ("2**40", lambda: 2 ** 40, lambda: 4 ** 20)):
+        def t_eq(stored=stored, probe=probe):
+            e = I.instantiate(ecls, [{"first": 1, "name": stored(), "last": 2}], {}, None, _F())
+            return I.get_item(e, probe(), None, _F())
+        p = ev(t_eq, "lookup by equality")
+        c = "Enum[%s] with an equal value that is a different object" % label
+        if p.returned and p.value == "name":
+            run.ok("reverse-lookup-first-match", c)
+        else:
+            run.violation("reverse-lookup-first-match", c, "returns %r although the name 'name' carries an equal value (values are compared by identity?)"
+                          % (p.value if p.returned else p.raised.describe(),), file, ecls.lookup("__getitem__")[0].node.lineno, "pyscsi.utils.enum:Enum.__getitem__")
     # add
     fadd = ecls.lookup("add")[0]
     frem = ecls.lookup("remove")[0]
